@@ -282,6 +282,7 @@ func finishVictim(c *vh.Case, victim *netx.Node, trace *workTrace, startWork *bi
 	if msg := trace.Stuck(); msg != "" {
 		c.Oracle("listener-called-with-lock-held", "%s", msg)
 	}
+	victim.Store.WaitIdle()
 	if msg := victim.Store.Stuck(); msg != "" {
 		c.Oracle("peer-store-called-with-lock-held", "%s", msg)
 	}
